@@ -44,7 +44,7 @@ META = {
             "headers, unrelated link commands, idle, keepalive / retry_required / LXU requests; consumer and PHY ready patterns (always, periodic, "
             "sparse, random), eager or waiting partner; distinct = FSM vectors + fault kinds + outcome kinds",
 }
-TIERS = {"quick": {"runs": 2400, "wall": 70}, "thorough": {"runs": 30000, "wall": 900}}
+TIERS = {"quick": {"runs": 4800, "wall": 70}, "thorough": {"runs": 30000, "wall": 900}}
 
 RULEMAP = {"accept_iff": "C37.accept_iff", "once_in_order": "C37.once_in_order", "lgood_per_accept": "C37.lgood_per_accept",
            "lbad_then_ignore": "C37.lbad_then_ignore", "credit_order": "C37.credit_order", "credit_bound": "C37.credit_bound",
